@@ -280,7 +280,12 @@ def do_action(pool, act, ctx, problems, hist_state):
         var = v
         if kind == "follow_on" and act.get("new_var") is not None:
             var = g.vars[act["new_var"]]
-        problems.append((f"{kind}_raises", f"action {act} raised {short_tb(e)}", f"history:{kind}:raise:{type(e).__name__}:{exc_site(e)}:{msg_key(e)}", var.id if var is not None else None, act.get("var2") if kind == "compute_pair" else None))
+        mech_ = f"history:{kind}:raise:{type(e).__name__}:{exc_site(e)}:{msg_key(e)}"
+        if "Dimension_has_blocks" in mech_:
+            # one mechanism whatever the action: a node that recorded its input's block count (explicit chunks=) meets an
+            # input unified / re-chunked under another configuration than the one it was built under
+            mech_ = "history:baked_block_count_meets_another_configuration:Dimension_has_blocks"
+        problems.append((f"{kind}_raises", f"action {act} raised {short_tb(e)}", mech_, var.id if var is not None else None, act.get("var2") if kind == "compute_pair" else None))
 
 
 ACTIONS = ["compute", "compute", "compute_same_object", "optimize_compute", "persist_compute", "graph_then_compute", "compute_pair", "rebuild", "rebuild", "follow_on", "drop_gc"]
